@@ -1,45 +1,63 @@
 import HC.Prelude
 import HC.Extracted.Guards
 import HC.Extracted.Consts
+import HC.Extracted.Atomic
 /-!
 # Model of the HTTP/2 send path of `hypercorn/protocol/h2.py`
 
-`StreamBuffer` (push / pop / drain / close with its two events), `H2Protocol.stream_send` for body events,
-`send_task` / `_send_data`, `_window_updated`, stream reset and connection close — for unboundedly many streams and
-every interleaving of the applications (one sequential sender per stream), the send task and the reader.
+`StreamBuffer` (push / pop / drain / close with its two events), `H2Protocol.stream_send` for body events and
+`StreamClosed` (`_reset_abandoned_response`, `_close_stream`), `send_task` / `_send_data`, `_window_updated`,
+`_priority_updated`, stream reset and connection close — for unboundedly many streams and every interleaving of the
+applications (one sequential sender per stream), the send task and the reader.
+
+Granularity: one op = the code between two suspension points of the real workers.  The suspension points are
+`Event.wait()` (S4 `_paused` / `_is_empty`, S5 `has_data`) and the transport write inside `_flush()` (S6); `Event.set()`
+and `Event.clear()` never suspend in either worker (`HC.Extracted.Atomic`, checked by the extractor).  So
+* `_send_data` is three ops: `pick` (window, pop, `send_data` or `block`), `sent` (after the DATA flush: the
+  `complete` test, `end_stream`), `endSent` (after the END_STREAM flush: forget buffer and tree entry);
+* `push` / `end_` leave the sender in `inPush` / `inDrain` and `pushWake` / `drainWake` is the resumption (on asyncio an
+  already set event resumes in the same loop turn; the op sequence is the same);
+* an abandoned response is `abandon` (`reset_stream`, flush) then `abandonFin` (`buffer.close()`, forget, `_close_stream`).
 
 Library (`h2`, `priority`) as assumed: `local_flow_control_window(i) = min(stream window, connection window)`;
 calls on a stream the library considers closed raise `StreamClosedError`; `next(priority)` returns *some* unblocked
-member of the tree (any of them: the model quantifies over the choice) and raises `DeadlockError` iff there is none.
+member of the tree (any of them: the model quantifies over the choice) and raises `DeadlockError` iff there is none;
+`MissingStreamError` is a `KeyError`.
 -/
 namespace HC.Proto.H2Send
 open HC.Extracted
 
-inductive PPc where | idle | inPush | inDrain
+inductive PPc where | idle | inPush | inDrain | inAbandon
 deriving Repr, DecidableEq
 
 structure Str where
   hasBuf : Bool := false         -- `stream_buffers` has an entry
-  buf : Nat := 0                 -- len(buffer)
+  buf : Nat := 0                 -- len(buffer)   (of the buffer object last created for the stream)
   complete : Bool := false       -- `_complete`
   pausedEv : Bool := false       -- `_paused` is set
   emptyEv : Bool := false        -- `_is_empty` is set
+  bufClosed : Bool := false      -- `_closed`: `close()` was called on the buffer
   pusher : PPc := .idle          -- where the application's pending send() is waiting
   inTree : Bool := false         -- priority tree membership
   blocked : Bool := false
   window : Int := 0              -- stream flow-control window
-  libClosed : Bool := false      -- h2 regards the stream as closed / reset
+  libClosed : Bool := false      -- h2 regards the stream as reset (by the peer or by us)
   live : Bool := false           -- `self.streams` has an entry
   -- ghosts
+  opened : Bool := false         -- `_create_stream` ran for this id (an application exists)
   pushed : Nat := 0
   sent : Nat := 0
   dropped : Nat := 0             -- bytes discarded by `StreamBuffer.close()`
   ended : Bool := false          -- END_STREAM sent
-  appDone : Bool := false        -- the stream layer has passed EndBody/EndData down (it sends nothing after that)
   credit : Int := 0              -- total stream-level credit granted (initial window + updates + settings deltas)
 deriving Repr, DecidableEq
 
-inductive TaskPc where | running | parked | exited
+inductive TaskPc where
+  | running                      -- at the top of the `while not self.closed` loop
+  | sending (i : Nat)            -- in `_send_data(i)`, DATA handed to h2, waiting for the flush
+  | ending (i : Nat)             -- in `_send_data(i)`, END_STREAM handed to h2, waiting for the flush
+  | parked                       -- in `has_data.wait()`
+  | exited
 deriving Repr, DecidableEq
 
 structure St where
@@ -58,10 +76,19 @@ def upd (f : Nat → Str) (i : Nat) (v : Str) : Nat → Str := fun j => if j = i
 @[simp] theorem upd_other (f : Nat → Str) (i j : Nat) (v : Str) (h : j ≠ i) : upd f i v j = f j := by simp [upd, h]
 
 def HIGH : Nat := Consts.h2_BUFFER_HIGH_WATER
+def LOW : Nat := Consts.h2_BUFFER_LOW_WATER
 
 /-- `StreamBuffer.close()` -/
 def Str.closeBuf (x : Str) : Str :=
-  { x with complete := true, dropped := x.dropped + x.buf, buf := 0, emptyEv := true, pausedEv := true }
+  { x with complete := true, bufClosed := true, dropped := x.dropped + x.buf, buf := 0, emptyEv := true, pausedEv := true }
+
+/-- the `except` clause of `_send_data`: `stream_buffers.pop(i, None)`, `close()` it if there was one, forget the tree
+    entry if there is one -/
+def Str.discard (x : Str) : Str :=
+  { (if x.hasBuf then x.closeBuf else x) with hasBuf := false, inTree := false }
+
+/-- `_close_stream`: forget the stream object (it is told `StreamClosed`) -/
+def Str.gone (x : Str) : Str := { x with live := false }
 
 inductive Op where
   | open_ (i : Nat) (w : Int)        -- RequestReceived → `_create_stream`
@@ -69,17 +96,21 @@ inductive Op where
   | pushWake (i : Nat)               -- a sender parked in `push` sees `_paused`, clears it and returns
   | end_ (i : Nat)                   -- `stream_send(EndBody)`
   | drainWake (i : Nat)              -- a sender parked in `drain` sees `_is_empty` and returns
-  | pick (i : Nat)                   -- send task: `next(priority) = i`, `_send_data(i)`
-  | consume                          -- send task at deadlock with `has_data` set: `wait()` returns, `clear()`
-  | park                             -- send task at deadlock, `has_data` not set: waits
+  | pick (i : Nat)                   -- send task: `next(priority) = i`, `_send_data(i)` up to its first suspension
+  | pickRaise (i : Nat)              -- … when h2 has already forgotten stream `i` (`local_flow_control_window` raises)
+  | sent (i : Nat)                   -- send task: the DATA frame is flushed; `complete` test, `end_stream`
+  | endSent (i : Nat)                -- send task: END_STREAM is flushed; buffer and tree entry forgotten
+  | park                             -- send task at `DeadlockError`: `has_data.wait()`
   | wake                             -- parked send task resumes: `clear()`
   | exit                             -- send task observes `self.closed`
   | winStream (i : Nat) (k : Nat)    -- WINDOW_UPDATE on a stream
   | winConn (k : Nat)                -- WINDOW_UPDATE on the connection
   | settings (d : Int)               -- SETTINGS changing INITIAL_WINDOW_SIZE by `d`
+  | maxFrame (m : Nat)               -- SETTINGS changing MAX_FRAME_SIZE
   | rst (i : Nat)                    -- RST_STREAM from the client
-  | prio (i : Nat)                   -- PRIORITY frame (any stream id, in any state)
-  | abandon (i : Nat)                -- the application finished without completing the response (reset by the server)
+  | prio (i p : Nat)                 -- PRIORITY frame for stream `i` (any id, any state) depending on `p` (0 = none)
+  | abandon (i : Nat)                -- `stream_send(StreamClosed)`: the application is finished with the stream
+  | abandonFin (i : Nat)             -- … after the RST_STREAM of an abandoned response is flushed
   | closed                           -- `handle(Closed)`
 deriving Repr, DecidableEq
 
@@ -95,12 +126,12 @@ def unblockAll (f : Nat → Str) : Nat → Str := fun j => let x := f j; { x wit
 def step (s : St) : Op → Option St
   | .open_ i w =>
     let x := s.str i
-    -- (after `handle(Closed)` the reader has stopped: no request is ever received on a closed connection)
-    if s.closed || x.hasBuf || x.live || x.libClosed || x.ended then none else
+    -- (after `handle(Closed)` the reader has stopped: no request is received on a closed connection; ids are fresh)
+    if s.closed || x.opened || x.hasBuf || x.live || x.libClosed || x.ended || x.pusher != .idle then none else
     -- a fresh stream: new StreamBuffer (both events clear), inserted blocked into the tree
     -- (`DuplicateStreamError` when a PRIORITY frame came first: the entry is kept as it is)
     some { s with str := upd s.str i { hasBuf := true, inTree := true, blocked := if x.inTree then x.blocked else true,
-                                       window := w, credit := w, live := true } }
+                                       window := w, credit := w, live := true, opened := true } }
   | .push i n =>
     let x := s.str i
     if x.pusher != .idle || n = 0 then none
@@ -110,43 +141,60 @@ def step (s : St) : Op → Option St
     else
       let b := x.buf + n
       let x1 := { x with blocked := false, buf := b, pushed := x.pushed + n, emptyEv := false }
-      if Guards.bufferPushCmp.eval b HIGH then
-        if x.pausedEv then some { s with hasData := true, str := upd s.str i { x1 with pausedEv := false } }
-        else some { s with hasData := true, str := upd s.str i { x1 with pusher := .inPush } }
-      else some { s with hasData := true, str := upd s.str i x1 }
+      some { s with hasData := true, str := upd s.str i (if Guards.bufferPushCmp.eval b HIGH then { x1 with pusher := .inPush } else x1) }
   | .pushWake i =>
     let x := s.str i
     if x.pusher == .inPush && x.pausedEv then some { s with str := upd s.str i { x with pusher := .idle, pausedEv := false } } else none
   | .end_ i =>
     let x := s.str i
     if x.pusher != .idle then none
-    else if !x.hasBuf then some { s with str := upd s.str i { x with appDone := true } }   -- KeyError on `stream_buffers[…].set_complete()`
+    else if !x.hasBuf then some s                                    -- KeyError on `stream_buffers[…].set_complete()`: swallowed
     else
-      let x1 := { x with complete := true, appDone := true }
+      let x1 := { x with complete := true }
       if !x.inTree then some { s with str := upd s.str i x1 }         -- MissingStreamError after set_complete
-      else
-        let x2 := { x1 with blocked := false }
-        some { s with hasData := true, str := upd s.str i (if x.emptyEv then x2 else { x2 with pusher := .inDrain }) }
+      -- `drain()`: a complete buffer that is not closed has not drained yet, whatever `_is_empty` says
+      else some { s with hasData := true,
+                         str := upd s.str i { x1 with blocked := false, pusher := .inDrain,
+                                                      emptyEv := if Guards.bufferDrainClears true x.bufClosed then false else x.emptyEv } }
   | .drainWake i =>
     let x := s.str i
     if x.pusher == .inDrain && x.emptyEv then some { s with str := upd s.str i { x with pusher := .idle } } else none
   | .pick i =>
+    -- `_send_data(i)` in which `local_flow_control_window(i)` answers (h2 still has the stream object, reset or not)
     let x := s.str i
     if s.task != .running || s.closed || !x.inTree || x.blocked then none
-    else if !x.hasBuf then none                                       -- KeyError inside the handler: the send task would die
-    else if x.libClosed then
-      -- StreamClosedError → `buffer.close()`, forget buffer and tree entry
-      some { s with str := upd s.str i { x.closeBuf with hasBuf := false, inTree := false } }
+    else if !x.hasBuf then some { s with str := upd s.str i x.discard }      -- KeyError → the `except` clause
     else
       let n := min x.buf (chunk s i)
       let r := x.buf - n
       let x1 := { x with buf := r, sent := x.sent + n, window := x.window - n,
-                         pausedEv := x.pausedEv || Guards.bufferPopRelease n r, emptyEv := x.emptyEv || (r == 0),
-                         blocked := (n == 0) }
-      let x2 := if x1.complete && r == 0 then { x1 with ended := true, hasBuf := false, inTree := false } else x1
-      some { s with connWin := s.connWin - n, connSent := s.connSent + n, str := upd s.str i x2 }
-  | .consume => if s.task == .running && !s.closed && s.hasData then some { s with hasData := false } else none
-  | .park => if s.task == .running && !s.closed && !s.hasData then some { s with task := .parked } else none
+                         pausedEv := x.pausedEv || Guards.bufferPopRelease n r, emptyEv := x.emptyEv || Guards.bufferPopEmpty r x.complete }
+      if n > 0 then
+        if x.libClosed then some { s with str := upd s.str i x.discard }      -- `send_data` raises StreamClosedError: what was popped is lost too
+        else some { s with connWin := s.connWin - n, connSent := s.connSent + n, task := .sending i, str := upd s.str i x1 }
+      else if Guards.sendDataEnds (Guards.bufferComplete x1.complete r) s.closed then
+        if x.libClosed then some { s with str := upd s.str i x.discard }      -- `end_stream` raises
+        else some { s with task := .ending i, str := upd s.str i { x1 with blocked := true, ended := true } }
+      else some { s with str := upd s.str i { x1 with blocked := true } }
+  | .pickRaise i =>
+    -- `_send_data(i)` in which `local_flow_control_window(i)` raises: h2 has forgotten the (closed) stream
+    let x := s.str i
+    if s.task != .running || s.closed || !x.inTree || x.blocked || !(x.libClosed || x.ended) then none
+    else some { s with str := upd s.str i x.discard }
+  | .sent i =>
+    let x := s.str i
+    if s.task != .sending i then none
+    else if !x.hasBuf then some { s with task := .running, str := upd s.str i x.discard }          -- KeyError → `except`
+    else if Guards.sendDataEnds (Guards.bufferComplete x.complete x.buf) s.closed then
+      if x.libClosed then some { s with task := .running, str := upd s.str i x.discard }            -- `end_stream` raises
+      else some { s with task := .ending i, str := upd s.str i { x with ended := true } }
+    else some { s with task := .running }
+  | .endSent i =>
+    let x := s.str i
+    if s.task != .ending i then none
+    -- `close()` the buffer (this is what releases the sender waiting in `drain`), forget it and the tree entry
+    else some { s with task := .running, str := upd s.str i x.discard }
+  | .park => if s.task == .running && !s.closed then some { s with task := .parked } else none
   | .wake => if s.task == .parked && s.hasData then some { s with task := .running, hasData := false } else none
   | .exit => if s.task == .running && s.closed then some { s with task := .exited } else none
   | .winStream i k =>
@@ -159,38 +207,46 @@ def step (s : St) : Op → Option St
     some { s with hasData := true,
                   str := fun j => let x := s.str j
                                   { x with window := x.window + d, credit := x.credit + d, blocked := if x.hasBuf then false else x.blocked } }
+  | .maxFrame m => if m = 0 then none else some { s with maxFrame := m }
   | .rst i =>
     let x := s.str i
-    some { s with hasData := true, str := upd s.str i { x with libClosed := true, live := false, blocked := if x.hasBuf then false else x.blocked } }
-  | .prio i =>
-    let x := s.str i
-    -- `reprioritize`, or on MissingStreamError `insert_stream` + `block`
-    some { s with hasData := true, str := upd s.str i (if x.inTree then x else { x with inTree := true, blocked := true }) }
+    let x1 := if x.hasBuf then x.closeBuf else x
+    some { s with hasData := true, str := upd s.str i { x1 with libClosed := true, live := false, blocked := if x.hasBuf then false else x.blocked } }
+  | .prio i p =>
+    -- `reprioritize`, or on MissingStreamError `insert_stream` + `block`; a parent that is not in the tree is inserted blocked
+    let f := if p != 0 && p != i && !(s.str p).inTree then upd s.str p { (s.str p) with inTree := true, blocked := true } else s.str
+    let x := f i
+    some { s with hasData := true, str := upd f i (if x.inTree then x else { x with inTree := true, blocked := true }) }
   | .abandon i =>
     let x := s.str i
     if x.pusher != .idle then none
-    else if x.hasBuf && !x.complete && !x.libClosed then
-      some { s with hasData := s.hasData || x.live, str := upd s.str i { x.closeBuf with hasBuf := false, inTree := false, libClosed := true, live := false } }
-    else some { s with hasData := s.hasData || x.live, str := upd s.str i { x with live := false } }
+    else if x.hasBuf && !x.complete && x.live && !x.libClosed then
+      -- `_reset_abandoned_response`: `reset_stream`, then the flush suspends
+      some { s with str := upd s.str i { x with libClosed := true, pusher := .inAbandon } }
+    else some { s with hasData := s.hasData || x.live, str := upd s.str i x.gone }
+  | .abandonFin i =>
+    let x := s.str i
+    if x.pusher != .inAbandon then none
+    else some { s with hasData := s.hasData || x.live,
+                       str := upd s.str i { x.closeBuf.gone with hasBuf := false, inTree := false, pusher := .idle } }
   | .closed =>
     some { s with closed := true, hasData := true,
                   str := fun j => let x := s.str j; if x.hasBuf then { x.closeBuf with live := false } else { x with live := false } }
 
-def LOW : Nat := Consts.h2_BUFFER_LOW_WATER
-
 def init (connWin : Int) (maxFrame : Nat) : St :=
   { str := fun _ => {}, connWin := connWin, connCredit := connWin, maxFrame := maxFrame }
 
-/-- what the environment of the send path guarantees about an op:
-    `park`/`consume` stand for `DeadlockError`, so they are only taken when no member is unblocked;
-    body events come from a stream object that is still registered and has not ended its body (the stream layer's
-    state machine, C12 `nothing_after_end`; `_close_stream` pops the stream and marks it closed before anything else) -/
+/-- what the environment of the send path guarantees about an op: `park` stands for `DeadlockError`, so it is only
+    taken when no member of the tree is unblocked.  (Nothing is assumed about the applications beyond what `step`
+    itself requires — one pending `send` per stream.) -/
 def opOk (s : St) : Op → Prop
   | .park => deadlock s
-  | .consume => deadlock s
-  | .push i _ => (s.str i).live = true ∧ (s.str i).appDone = false
-  | .end_ i => (s.str i).live = true ∧ (s.str i).appDone = false
   | _ => True
+
+/-- the ops of the send task (everything else is the environment: applications and reader) -/
+def Op.isTask : Op → Bool
+  | .pick _ | .pickRaise _ | .sent _ | .endSent _ | .park | .wake | .exit => true
+  | _ => false
 
 /-- a run: `none` as soon as an op is not enabled -/
 def runOk : St → List Op → Option St
